@@ -123,6 +123,21 @@ CHECKS['C47'] = (B, 'exploration', 'bounded-exhaustive configuration enumeration
     'Every ordered sequence of platform headings from an alphabet of literal, regex, alternation, comma-list and {m,n} forms, written to real global.cylc files and loaded by the real parser, resolved for every name of a small universe and compared with a hand-written matcher (last full match wins). Every host list, bad-host subset and method, and every group member list, with all random choices enumerated.',
     'Up to 3-4 headings, 3-4 hosts, 3 group members. Re-opened headings not judged.')
 
+CHECKS['C38'] = ('hist', 'exploration', 'bounded-exhaustive tree x pattern enumeration with lstat snapshots and an independent glob matcher', '6/C38',
+    'Every run-dir tree of <=3 (thorough <=5) of 21 features x 21 (thorough 39) --rm patterns plus wholesale, built on disk with symlink roots, outside sentinels and sibling workflows, cleaned through the real local init_clean path; containment, no-follow and completeness judged from before/after snapshots.',
+    'Flat workflow ID, no dot-names, no symlink cycles; refusals judged for containment only.')
+CHECKS['C44'] = ('hist', 'fault_enumeration', 'umask x left-over-state enumeration of the real start-up file creation', '6/C44',
+    'All 512 umasks x 5 (thorough 9) left-over states of .service; each start-up runs the real register, make_workflow_run_tree, key_housekeeping and WorkflowDatabaseManager.on_workflow_start in the scheduler order; afterwards the private DB and every *.key_secret must have no group/other bits. Exhaustive; a slice is re-run one forked child per case.',
+    'Judged at end of start-up only; run as root; rest of Scheduler start-up not executed.')
+CHECKS['C48'] = ('hist', 'model_checking', 'breadth-first history exploration of real install/reinstall/clean with state deduplication', '6/C48',
+    'All histories (depth 6 quick, 10 thorough) over install, --run-name, --no-run-name, reinstall and clean of every run, executed through install_workflow/reinstall_workflow/init_clean with rsync on tmpfs; reference = monotone counter + latest run; checks run<k+1>, runN target, byte-identity of existing runs.',
+    'One workflow and one source; reuse judged within one lifetime of the workflow directory; one known finding (run number reused after the latest run is cleaned).')
+
+CHECKS['C06'] = (
+    'schedmc', 'model_checking', A_TECH, '6/C06',
+    'Operator commands (hold/release of every instance in bounds incl. not-yet-spawned ones, set/release hold point, trigger) are injected at every main-loop boundary of the explored runs, followed by stop --now --now and restart at every later boundary. A reference held set and hold point built from the statement are compared with the scheduler\'s held set, hold point and every proxy\'s held flag after every transition (including after restart), and no held task may enter preparation.',
+    A_NOTE)
+
 NOT_BUILT_REASON = (
     'check not built yet in this session (designed in DESIGN.md section 6); '
     'no verdict is claimed')
@@ -183,7 +198,7 @@ def build() -> dict:
     }
 
 
-ENGINE_PATH = {'enum': 'props', 'hist': 'hist', 'schedmc': 'sched'}
+ENGINE_PATH = {'enum': 'props', 'hist': 'props', 'schedmc': 'sched'}
 ENGINE_TEXT = {
     'enum': 'bounded-exhaustive enumeration of inputs against independent '
             'reference models, executed on the real code',
